@@ -89,12 +89,35 @@ func flatRing(ring [][2]int64, l geom.Layout) []float64 {
 	return out
 }
 
+// withExtras gives a query point n further ordinates (its Z and M): only x and y
+// say where it is. The values are picked by the point's own bits, so a case stays a
+// pure function of itself: an ordinary number, NaN (no measure), infinities, -0 and
+// the largest finite value.
+func withExtras(pc geom.Coord, n int) geom.Coord {
+	h := math.Float64bits(pc[0])*0x9E3779B97F4A7C15 ^ math.Float64bits(pc[1])*0xC2B2AE3D27D4EB4F
+	for d := 0; d < n; d++ {
+		h = (h ^ h>>29) * 0xBF58476D1CE4E5B9
+		switch (h >> 33) % 8 {
+		case 0, 1, 2:
+			pc = append(pc, math.NaN())
+		case 3:
+			pc = append(pc, math.Inf(1))
+		case 4:
+			pc = append(pc, math.Inf(-1))
+		case 5:
+			pc = append(pc, math.Copysign(0, -1))
+		case 6:
+			pc = append(pc, math.MaxFloat64)
+		default:
+			pc = append(pc, -7)
+		}
+	}
+	return pc
+}
+
 func checkRing(p [2]int64, ring [][2]int64, l geom.Layout, what string) error {
 	want := locate(p, ring)
-	pc := geom.Coord{float64(p[0]), float64(p[1])}
-	for d := 2; d < l.Stride(); d++ {
-		pc = append(pc, -7)
-	}
+	pc := withExtras(geom.Coord{float64(p[0]), float64(p[1])}, l.Stride()-2)
 	flat := flatRing(ring, l)
 	got := xy.LocatePointInRing(l, pc, flat)
 	if got != want {
@@ -194,10 +217,7 @@ func flatRingF(ring [][2]model.F, l geom.Layout) []float64 {
 }
 
 func checkRingF(p [2]model.F, ring [][2]model.F, l geom.Layout, what string, want location.Type) error {
-	pc := geom.Coord{p[0].V(), p[1].V()}
-	for d := 2; d < l.Stride(); d++ {
-		pc = append(pc, -7)
-	}
+	pc := withExtras(geom.Coord{p[0].V(), p[1].V()}, l.Stride()-2)
 	flat := flatRingF(ring, l)
 	if got := xy.LocatePointInRing(l, pc, flat); got != want {
 		return fmt.Errorf("%s: LocatePointInRing(%v, p=%v, ring=%v) = %v, exact %v", what, l, pc[:2], flat, got, want)
@@ -708,11 +728,15 @@ func prop(c Case) error {
 			}
 		}
 		pc := geom.Coord{float64(c.P[0]), float64(c.P[1])}
-		for li, l := range layouts {
+		for _, l := range layouts {
 			if got := xy.IsOnLine(l, pc, flatRing(c.Ring, l)); got != want {
 				return fmt.Errorf("IsOnLine(%v, p=%v, line=%v) = %v, exact %v", l, c.P, c.Ring, got, want)
 			}
-			_ = li
+			if pz := withExtras(pc.Clone(), l.Stride()-2); len(pz) > 2 {
+				if got := xy.IsOnLine(l, pz, flatRing(c.Ring, l)); got != want {
+					return fmt.Errorf("IsOnLine(%v, p=%v, line=%v) = %v, exact %v", l, pz, c.Ring, got, want)
+				}
+			}
 		}
 		for i := 1; i < len(c.Ring); i++ {
 			a, b := c.Ring[i-1], c.Ring[i]
@@ -739,6 +763,12 @@ func prop(c Case) error {
 		pc := geom.Coord{c.PF[0].V(), c.PF[1].V()}
 		if got := xy.IsOnLine(geom.XY, pc, flat); got != want {
 			return fmt.Errorf("IsOnLine(p=%v, line=%v) = %v, exact %v", pc, flat, got, want)
+		}
+		// the query point handed over with its Z and M (a Coord of another layout)
+		for n := 1; n <= 2; n++ {
+			if pz := withExtras(pc.Clone(), n); xy.IsOnLine(geom.XY, pz, flat) != want {
+				return fmt.Errorf("IsOnLine(p=%v, line=%v) = %v, exact %v", pz, flat, !want, want)
+			}
 		}
 		return nil
 	}
